@@ -4,6 +4,7 @@
    whose condition can panic), exponent loops (`while pow > 1 { ..; pow >>= 1 }`). *)
 From Bnum Require Import Base Prim.
 From Bnum.Model Require Import LoopPrims Imp.
+From Bnum.Model Require Cast.
 From Bnum.Proofs Require Import ImpLemmas.
 
 Lemma while_loop_S {St R : Type} fuel (cond : St -> bool) (body : St -> res (flow St R)) s :
@@ -175,4 +176,13 @@ Proof.
   intros Hlg ->. unfold ix_shl, digit_BIT_SHIFT.
   rewrite <- (Z2Nat.id lg) at 1 by lia. rewrite tz32_pow2, Z2Nat.id by lia.
   apply Z.shiftl_mul_pow2. lia.
+Qed.
+
+(* the array write of Model/Cast.v (the hand model of the conversion code) is arr_set *)
+Lemma wr_as_arr_set out i d :
+  match Cast.wr out i d with Ret r => Done r | Panic => Panicked end = arr_set out (Z.of_nat i) d.
+Proof.
+  unfold Cast.wr. rewrite arr_set_cases by lia. rewrite Nat2Z.id.
+  destruct (Nat.ltb_spec i (length out)) as [Hlt|Hge]; [|reflexivity].
+  rewrite list_set_split by exact Hlt. reflexivity.
 Qed.
